@@ -129,6 +129,9 @@ impl World {
         if m.nontrace_since_pass {
             m.nontrace_since_pass = false;
             m.pass_count += 1;
+            if m.pass_count == 10 {
+                stats.borrow_mut().bump("collection_reached_its_10th_pass");
+            }
             m.buf_pending.clear();
             m.dropped_this_pass.clear();
             m.buf_model.clear();
